@@ -63,6 +63,32 @@ package slug
 //@   invariant loop2 C12.eof.inv2: $eof
 //@   ensures C12.eof: err == nil ==> $eof
 
+// The option values the library itself uses, named; the closure bodies do what the PackerOption contract
+// (lib/bundle.contracts) says a call of those values does.
+//@ func DereferenceSymlinks -> (r)
+//@   pure
+//@   sweep
+//@   defines def.opt-deref: r == optDereference()
+//@ func ApplyTerraformIgnore -> (r)
+//@   pure
+//@   sweep
+//@   defines def.opt-ignore: r == optIgnore()
+//@ func DereferenceSymlinks$1 -> (err)
+//@   modifies p
+//@   sweep
+//@   requires pre.p: p != nil
+//@   ensures C09.opt.deref: err == nil && p.dereference && p.applyTerraformIgnore == old(p.applyTerraformIgnore) && p.allowSymlinkTargets == old(p.allowSymlinkTargets)
+//@ func ApplyTerraformIgnore$1 -> (err)
+//@   modifies p
+//@   sweep
+//@   requires pre.p: p != nil
+//@   ensures C09.opt.ignore: err == nil && p.applyTerraformIgnore && p.dereference == old(p.dereference) && p.allowSymlinkTargets == old(p.allowSymlinkTargets)
+//@ func NewPacker -> (r, err)
+//@   sweep
+//@   invariant loop1 C09.newpacker.inv: p != nil && (rangeindex < 0 ==> !p.dereference && !p.applyTerraformIgnore && len(p.allowSymlinkTargets) == 0)
+//@       && (len(options) == 1 && options[0] == optDereference() && rangeindex >= 0 ==> p.dereference && !p.applyTerraformIgnore && len(p.allowSymlinkTargets) == 0)
+//@   ensures C09.newpacker.deref-only: len(options) == 1 && old(options[0]) == optDereference() ==> err == nil && r != nil && r.dereference && !r.applyTerraformIgnore && len(r.allowSymlinkTargets) == 0
+
 //@ macro metaMatchesArchive(M): M != nil && len(M.Files) == $tarN && M.Size == $tarBody
 //@     && (0 <= anyIndex && anyIndex < $tarN ==> M.Files[anyIndex] == arrSelect($tarNames, anyIndex))
 //@ func (*Packer).Pack -> (meta, err)
@@ -77,6 +103,7 @@ package slug
 //@   replay packMeta@C20:
 //@   replay packRootLink@C16:
 //@   at-call path/filepath.Walk#1 C16.pack.walk-root: a0 == Abs(ite(modeSymlinkBit(fileMode(info)), ite(isAbs(readlinkOf(src)), readlinkOf(src), Join(Dir(src), readlinkOf(src))), src))
+//@   sets $packCalls = old($packCalls) + 1
 //@   ensures C20.pack.meta: err == nil ==> metaMatchesArchive(meta)
 //@   ensures C12.pack.close-errors: err == nil ==> isNil($tarCloseErr) && isNil($gzipCloseErr)
 //@   ensures C12.pack.noresult: err != nil ==> meta == nil
